@@ -214,7 +214,7 @@ def roundtrip_same_process(w, protocol, loader):
 
 FRESH_SCRIPT = r"""
 import sys, json, pickle
-sys.path.insert(0, '/verif'); sys.path.insert(0, '/repo')
+import os; sys.path.insert(0, os.environ.get('VERIF_ROOT', '/verif')); sys.path.insert(0, '/repo')
 import dill
 from edgegraph.structure import Vertex
 job = json.load(open(sys.argv[1]))
